@@ -6,9 +6,12 @@ import em_common as E
 RULE = ("references of 3-40 atoms (random trees, cyclic graphs, chains, stars, random labels), targets of 1-60 atoms near "
         "the reference, s in (0,2] with 1 and 0.5 over-represented; geometry streams: generic (molecule-like walk), "
         "partial (one anchor exactly collinear with its frame neighbours), near (near-collinear, margin 1e-9..1e-3), "
-        "collinear_decimal; dyadic stream (exact binary64 distances): grid (equidistant anchors -> tie rule), collinear "
+        "nearlinear (anchor bent off the line by sin phi in [2e-5,1e-2]), neartie (target atoms 5e-7..2.5e-4 nm off the "
+        "bisector plane of two anchors, s in {0.25,0.5,0.9,2}), elastic (20-40 atoms, elastic-network bond lists with "
+        "index gaps 2,3,8,16,32: anchors with 5-8 neighbours), collinear_decimal; dyadic stream (exact binary64 distances): grid (equidistant anchors -> tie rule), collinear "
         "along an axis / a diagonal / an integer direction.  Each case is a call SEQUENCE on one map object: the construction "
-        "Molecule object itself, fresh copies at the construction-time positions, moved copies in between, in-place "
+        "Molecule object itself, fresh copies / deep copies (own topology) / separately loaded equal molecules at the "
+        "construction-time positions, moved copies in between, in-place "
         "excursions of the construction object and back; the law is checked on every call made in the reference "
         "configuration and every call is a correspondence case. "
         "A case is non-trivial when distinct (every case has >= 1 anchor and >= 1 target atom).")
@@ -75,17 +78,20 @@ def default_steps(spec):
 
 
 C01_PATTERNS = [["object"], ["copy0"], ["object", "copy", "object"], ["copy", "object", "copy0"],
-                ["object", "inplace", "restore"], ["copy", "copy0", "inplace", "restore", "object"]]
+                ["object", "inplace", "restore"], ["copy", "copy0", "inplace", "restore", "object"],
+                ["deep0"], ["object", "deep0", "sep0"], ["deepcopy", "sep0", "deep0"]]
 
 
 def gen_steps(rs, spec, pattern=None):
-    """"copy0": a fresh copy at the construction-time positions"""
+    """"copy0" / "deep0" / "sep0": the argument is in the construction-time configuration"""
     if pattern is None:
         pattern = C01_PATTERNS[rs.randint(len(C01_PATTERNS))]
     steps = []
     for how in pattern:
-        if how == "copy0":
-            steps.append({"how": "copy", "pos": spec["ref"]})
+        if how in ("copy0", "deep0", "sep0"):
+            # a fresh copy / a deep copy (own topology) / a separately loaded equal molecule, in the construction-time
+            # configuration
+            steps.append({"how": {"copy0": "copy", "deep0": "deepcopy", "sep0": "separate"}[how], "pos": spec["ref"]})
         else:
             steps += E.make_steps(rs, spec, moved_conf, [how])
     return steps
@@ -130,9 +136,46 @@ SEQ_CORPUS = [({"n_ref": 5, "graph": "tree", "geom": "generic", "bonds": [[0, 1]
                 "tgt": _W_TGT, "s": sc}, _W_STEPS) for sc in (1.0, 0.5, 1.7)]
 
 
+def _witness_c01_3():
+    """seeded change C01-3 (frame neighbours from the unsorted bonds set): 40-bead chain with an elastic network (every
+    pair closer than 0.6 nm bonded), three target atoms around every bead; the map is applied to ref.deep_copy() and to
+    a separately loaded equal molecule in the identical configuration"""
+    rng = np.random.RandomState(2021)
+    n = 40
+    st = rng.normal(size=(n, 3))
+    st *= 0.35 / np.linalg.norm(st, axis=1)[:, None]
+    ref = np.cumsum(st, axis=0)
+    bonds = [(i, i + 1) for i in range(n - 1)]
+    bonds += [(i, j) for i in range(n) for j in range(i + 2, n) if np.linalg.norm(ref[i] - ref[j]) < 0.6]
+    tgt = np.concatenate([p + rng.uniform(-.12, .12, size=(3, 3)) for p in ref])
+    steps = [{"how": "object"}, {"how": "deepcopy", "pos": ref.tolist()}, {"how": "separate", "pos": ref.tolist()}]
+    return [({"n_ref": n, "graph": "elastic", "geom": "generic", "bonds": [list(b) for b in bonds], "ref": ref.tolist(),
+              "tgt": tgt.tolist(), "s": sc}, steps) for sc in (1.0, 0.5, 2.0)]
+
+
+def _witness_c01_4():
+    """seeded change C01-4 (distances rounded to 1e-3 nm before the minimum): bent 5-bead chain, the last target atom
+    2e-4 nm past the mid point of beads 1 and 2 (distances 0.198478 / 0.198133 nm: bead 2 is the closest anchor)"""
+    ref = np.array([[0.00, 0.00, 0.00], [0.30, 0.12, 0.00], [0.62, 0.02, 0.07], [0.93, 0.15, 0.00], [1.20, 0.00, 0.10]])
+    a1, a2 = ref[1], ref[2]
+    axis = (a2 - a1) / np.linalg.norm(a2 - a1)
+    perp = np.cross(axis, [0., 0., 1.])
+    perp /= np.linalg.norm(perp)
+    rng = np.random.RandomState(7)
+    ordinary = np.concatenate([p + rng.uniform(-.05, .05, size=(2, 3)) for p in ref])
+    out = []
+    for sign in (1.0, -1.0):           # both index orders: closer to bead 2, closer to bead 1
+        tgt = np.concatenate([ordinary, [(a1 + a2) / 2 + sign * 2e-4 * axis + 0.1 * perp]])
+        for sc in (1.0, 0.5, 0.9, 2.0):
+            spec = {"n_ref": 5, "graph": "chain", "geom": "neartie", "bonds": [[0, 1], [1, 2], [2, 3], [3, 4]],
+                    "ref": ref.tolist(), "tgt": tgt.tolist(), "s": sc}
+            out.append((spec, default_steps(spec)))
+    return out
+
+
 def _corpus_items(ctx):
     items = [(spec, default_steps(spec)) for spec in CORPUS + E.shipped_specs(ctx.n(40, 10 ** 6))]
-    items += list(SEQ_CORPUS)
+    items += list(SEQ_CORPUS) + _witness_c01_3() + _witness_c01_4()
     # the D1 witnesses through the construction object as well
     items += [(spec, [{"how": "object"}, {"how": "copy", "pos": (np.array(spec["ref"]) + 0.5).tolist()}, {"how": "object"}])
               for spec in CORPUS]
@@ -172,13 +215,13 @@ def oracle(ctx, scale):
     rs = ctx.np_rng("S%d" % scale)
     S = ctx.cov["S"]
     n = ctx.n(400, 6000) * scale
-    geoms = ["generic", "generic", "partial", "collinear_decimal"] + E.GEOMS_DYADIC
+    geoms = ["generic", "generic", "partial", "collinear_decimal", "nearlinear", "neartie", "neartie", "elastic"] + E.GEOMS_DYADIC
     fails = 0
     hist, pats = {}, {}
     ncalls = 0
     for i in range(n):
         spec = E.gen_spec(rs, geoms[i % len(geoms)])
-        if i % 7 == 0:
+        if i % 7 == 0 and spec["geom"] != "neartie":
             spec["s"] = 1.0
         steps = gen_steps(rs, spec)
         ncalls += len(steps)
